@@ -1139,6 +1139,9 @@ func (P *Program) pureConstResult(sp *FuncSpec) types.Type {
 			}
 		} else {
 			o = P.logPkg.Types.Scope().Lookup(tn)
+			if o == nil {
+				o = types.Universe.Lookup(tn)
+			}
 		}
 		if o == nil {
 			return nil
